@@ -582,6 +582,7 @@ def run(F, R, tier, cfg):
     hrs_rule(F, R, vts)
     subview_rule(F, R, vts, fns)
     ctor_unsafe_rule(F, R, vts)
+    exact_rule(F, R)
     dispatch_rule(F, R, vts, M)
     payload_rules(F, R, vts)
     sz_rule(F, R, vts)
@@ -840,6 +841,76 @@ def ctor_unsafe_rule(F, R, vts):
         if not ok:
             R.violation("CTOR-unsafe", V + "/field", "%s has a public field: safe code can build the view from arbitrary bytes with a struct literal" % V.split("::")[-1], None)
     R.floor("CTOR-private", m, 16, "view structs")
+
+
+def _nref(t):
+    while isinstance(t, tuple) and t and t[0] in ("ref", "deref"):
+        t = t[2] if t[0] == "ref" else t[1]
+    return t
+
+
+def exact_rule(F, R):
+    """EXACT: every view is built over a buffer of exactly the length has_required_size returned — the premise of SUBVIEW,
+    HRS and of the fixed-size `from_boxed_unchecked` impls, whose `try_into().unwrap_unchecked()` is undefined behaviour on
+    any other length.  For each call of a `View::from_*_unchecked` trait item inside a safe default method of the View
+    trait, the argument is either the `.0` half of `split_at[_mut]_unchecked(buf, SIZE)` with SIZE the Ok value of
+    `has_required_size(buf)` over the same buffer, or the whole buffer on the pass edge of a switch on
+    `len(buf) == SIZE` / `!= SIZE`.  `to_boxed` copies `self.as_slice()`, which is exact by induction."""
+    n = 0
+    for p in F.find_fns(lambda q: re.match(r"sciparse::core::view::View::(try_from_\w+|to_boxed)$", q)):
+        pb = F.body(p)
+        if pb is None:
+            continue
+        for c in pb.calls:
+            if not c.callee or not re.search(r"core::view::View::from_(mut_)?(slice|boxed)_unchecked$", c.callee):
+                continue
+            n += 1
+            R.fn(p)
+            a = _nref(strip_sites(pb.origin(c.args[0])))
+            how = None
+
+            def is_size(t, buf):
+                # (branch(has_required_size(&buf)) as Continue).0
+                t = _nref(t)
+                hs = [x for x in walk(t) if x[0] == "call" and x[1].endswith("View::has_required_size")]
+                return bool(hs) and all(_nref(strip_sites(h[2][0])) == buf for h in hs) and "Continue" in fmt(t, 400) \
+                    and not any(x[0] in ("bin", "un") for x in walk(t))
+            if a[0] == "field" and a[2] in (0, "0") and _nref(a[1])[0] == "call" and \
+                    re.search(r"split_at(_mut)?_unchecked$", _nref(a[1])[1]):
+                sp = _nref(a[1])
+                buf = _nref(strip_sites(sp[2][0]))
+                if is_size(strip_sites(sp[2][1]), buf):
+                    how = "first half of split at has_required_size(buf)"
+            elif a[0] == "call" and a[1].endswith("into_boxed_slice") and p.endswith("::to_boxed") and \
+                    any(x[0] == "call" and x[1].endswith("View::as_slice") for x in walk(a)):
+                how = "copy of self.as_slice()"
+            else:
+                buf = a
+
+                def pred(tk, oo, g, buf=buf):
+                    oo = _nref(strip_sites(oo))
+                    if oo[0] != "bin" or oo[1] not in ("Ne", "Eq"):
+                        return False
+                    l, r = _nref(oo[2]), _nref(oo[3])
+                    for (x, y) in ((l, r), (r, l)):
+                        if x[0] == "call" and x[1].endswith("::len") and _nref(strip_sites(x[2][0])) == buf and is_size(y, buf):
+                            pred.op = oo[1]
+                            return True
+                    return False
+                for op, val in (("Ne", [0]), ("Eq", [1])):
+                    pred.op = None
+                    ok, g = T.guarded_by(pb, c.bb, lambda tk, oo, g, op=op: pred(tk, oo, g) and pred.op == op, val)
+                    if ok:
+                        how = "whole buffer on the len(buf) %s SIZE edge of bb%d" % ("==" if True else "", g)
+                        break
+            R.ob("EXACT", "%s: %s receives a buffer of exactly has_required_size bytes (%s)" % (short(p), c.callee.rsplit("::", 1)[1], how or "NOT SHOWN"),
+                 how is not None, True, {"rule": "EXACT", "fn": p, "loc": c.span.loc, "argument": fmt(a, 240), "how": how})
+            if how is None:
+                R.violation("EXACT", p + "/" + c.callee.rsplit("::", 1)[1],
+                            "%s builds a view over a buffer whose length is not shown equal to has_required_size(buf): argument %s; "
+                            "fixed-size views' from_boxed_unchecked (`try_into().unwrap_unchecked()`) is undefined behaviour on any other "
+                            "length, and every accessor proof (SUBVIEW/HRS) assumes the exact size" % (short(p), fmt(a, 160)), c.span.loc)
+    R.floor("EXACT", n, 4, "View::from_*_unchecked calls in the View trait's safe default methods")
 
 
 def thorough_extra(R):
